@@ -380,6 +380,9 @@ func BuildCompletions(spec *wire.CompSpec, line []rune, cursor int) readline.Com
 		all = all.TagF(func(value string) string { return tagOf[value] })
 	}
 	all = all.NoSort()
+	if spec.List {
+		all = all.DisplayList()
+	}
 	if spec.NoSpace != "" {
 		all = all.NoSpace([]rune(spec.NoSpace)...)
 	}
